@@ -351,6 +351,27 @@ Theorem C16_gen_weekday_hash : forall a, gen_wd_hash a = GOk a.
 Proof. exact gen_wd_hash_correct. Qed.
 Print Assumptions C16_gen_weekday_hash.
 
+(* ======== the same source of _fix, read on float-valued day/hour/minute/second/microsecond fields
+   as exact rationals numerator / D, equals the hand-written rational idealisation used by the
+   C16_float_*_partial theorems (IEEE rounding remains outside: partial) *)
+From V Require Import rd.RdGenQThm.
+
+Theorem C16_gen_fix_q_partial : forall D o, gen_fix_q D o = GOk (obj_of_rd (ctor_q D (rd_of_obj o))).
+Proof. exact gen_fix_q_correct. Qed.
+Print Assumptions C16_gen_fix_q_partial.
+
+(* normalized() in the same rational reading (int() truncates, round(x, k) idealised as the identity,
+   the final round() nearest-even): the constructor receives exactly the integer fields of the
+   hand-written normalized_q, and the result is the integer-model delta normalized_q D d (scaled) *)
+Theorem C16_gen_normalized_q_partial : forall D o, 0 < D ->
+  gen_normalized_q D o = GOk (obj_of_rd (scale_rd D (normalized_q D (rd_of_obj o)))).
+Proof. exact gen_normalized_q_scaled. Qed.
+Print Assumptions C16_gen_normalized_q_partial.
+
+Theorem C16_gen_fix_q_one : forall o, gen_fix_q 1 o = gen_fix o.
+Proof. exact gen_fix_q_one. Qed.
+Print Assumptions C16_gen_fix_q_one.
+
 (* ======== the whole keyword path of __init__, translated: statements before `yday = 0`
    (gen_init_head, this translator), the yearday / nlyearday conversion (gen_init_yearday, translated by
    harness/gen_rd_add.py for C03) and the final _fix, composed in source order, equal the model's
